@@ -100,6 +100,12 @@ static const layout_t LAY[]={
    {"4in(one ignored:0,255,1,2)",4,-1,2,1,{0,255,1,2}},
    {"surround5.1(family1)",6,1,0,0,{0}},
    {"ambisonics-foa(family2)",4,2,0,0,{0}},
+   /* permuted mappings (appended): the coupled stream's left/right inputs are not channels (0,1) - the per-format analysis down-mixers
+      receive the mapped channel indices (c1,c2), so every index value incl. 0 must occur in the c2 position */
+   {"stereo-swapped(1 coupled:1,0)",2,-1,1,1,{1,0}},
+   {"3ch-rotated(1 coupled+1 mono:1,2,0)",3,-1,2,1,{1,2,0}},
+   {"3ch-rotated(1 coupled+1 mono:2,0,1)",3,-1,2,1,{2,0,1}},
+   {"4ch-reversed(2 coupled:3,2,1,0)",4,-1,2,2,{3,2,1,0}},
 };
 #define NLAY ((int)(sizeof LAY/sizeof LAY[0]))
 
@@ -257,7 +263,7 @@ int main(int argc,char **argv){
    mode=mc_arg_s("--mode","enc"); MC.part=mc_arg_s("--part",!strcmp(mode,"ms")?"msenc":"enc");
    { int depth=!strcmp(mode,"depth")||!strcmp(mode,"msdepth"); if(depth){ dbrmask=(unsigned)mc_arg("--brs",0x1f); dcxmask=(unsigned)mc_arg("--cxs",7); ddurmask=(unsigned)mc_arg("--ddurs",0x08); dframes20=(int)mc_arg("--frames",24); mk_specs((int)mc_arg("--fullspecs",0)); } }
    sigmask=(unsigned)mc_arg("--sigs",0x1ff); durmask=(unsigned)mc_arg("--durs",0x1ff); frscale=(int)mc_arg("--frscale",1);
-   fsmask=(unsigned)mc_arg("--fs",0x1f); appmask=(unsigned)mc_arg("--apps",7); laymask=(unsigned)mc_arg("--layouts",0x7f);
+   fsmask=(unsigned)mc_arg("--fs",0x1f); appmask=(unsigned)mc_arg("--apps",7); laymask=(unsigned)mc_arg("--layouts",0x7ff);
    lsb_full_default=(int)mc_arg("--lsbfull",0);
    ls=mc_arg_s("--lsbs","8,12,16"); nlsb=0; { const char *q=ls; while(*q&&nlsb<16){ lsbs[nlsb++]=atoi(q); while(*q&&*q!=',') q++; if(*q==',') q++; } }
    mk_devs();
